@@ -44,7 +44,7 @@ fn decode(u: &mut Unstructured) -> arbitrary::Result<(u8, Case)> {
     let nl = u.int_in_range(1usize..=3)?;
     let labels = (0..nl).map(|_| Ok(LabelRaw { value: u.arbitrary()?, subset: u.arbitrary()? })).collect::<arbitrary::Result<Vec<_>>>()?;
     let scn = Scn { key, polys, points, labels, perm_p: u.arbitrary()?, perm_v: u.arbitrary()?, names: u.arbitrary()?, seeds: [u.arbitrary()?, u.arbitrary()?, u.arbitrary()?], pre: if u.arbitrary()? { 0 } else { u.arbitrary()? } };
-    let mode = u.int_in_range(0u8..=4)?;
+    let mode = u.int_in_range(0u8..=6)?;
     let nops = u.int_in_range(1usize..=8)?;
     let ops = (0..nops).map(|_| Ok(OpRaw { op: u.arbitrary()?, arg: u.arbitrary()?, seed: u.arbitrary()? })).collect::<arbitrary::Result<Vec<_>>>()?;
     Ok((scheme, Case { scn, mode, ops, sel: u.arbitrary()? }))
